@@ -100,7 +100,10 @@ type Sim struct {
 
 // NewSim creates the chain with its genesis block applied.
 func NewSim(p Params) *Sim {
-	k := NewKeyring()
+	k := p.Keyring
+	if k == nil {
+		k = NewKeyring()
+	}
 	s := &Sim{P: p, K: k, Net: Network(p, k), Store: newStore(),
 		blockID: map[int]types.BlockID{}, real: map[SID][32]byte{}}
 	var gtx types.Transaction
